@@ -211,3 +211,165 @@ Proof.
   - unfold dict_nonempty. destruct kw as [vk pk]. cbn [fst]. destruct vk; cbn; try (right; eexists; split; [reflexivity|discriminate]).
     destruct d; cbn; auto. right; eexists; split; [reflexivity|discriminate].
 Qed.
+
+(* ---------------- fmap is a renaming of the operation of every normal-form node ---------------- *)
+Section Fmap.
+Variable fm : fmap_t.
+Notation sF := (scrub_s MNormal fm).
+Notation s0 := (scrub_s MNormal []).
+
+Fixpoint nofakeb_n (r : raw) : bool :=
+  match r with
+  | RCall op a k => nofakeb_n a && forallb (fun kv => nofakeb_n (snd kv)) k
+                    && match as_normal (vals (filter_map (kv_opt sF) k)) with None => true | _ => false end
+  | RDict kvs => forallb (fun kv => nofakeb_n (snd kv)) kvs
+                 && match as_normal (vals (filter_map (kv_opt sF) kvs)) with None => true | _ => false end
+  | RList xs => forallb nofakeb_n xs
+  | RPR _ named flat => forallb (fun kv => forallb nofakeb_n (snd kv)) named && forallb nofakeb_n flat
+                 && match as_normal (vals (filter_map (kv_opt (fun vs => pack_s (filter_map sF vs))) named)) with
+                    None => true | _ => false end
+  | _ => true
+  end.
+
+Definition ren := rename_ops fm.
+Definition Q (a b : option res) : Prop :=
+  match a, b with
+  | Some ra, Some rb => fst ra = ren (fst rb)
+  | None, None => True
+  | _, _ => False
+  end.
+
+Lemma ren_list l : ren (JList l) = JList (map ren l). Proof. reflexivity. Qed.
+Lemma ren_dict d : ren (JDict d) =
+  let d' := map (fun kv => (fst kv, ren (snd kv))) d in
+  match d' with
+  | ("op", JStr op) :: rest => match as_normal d' with Some _ => JDict (("op", JStr (fmap_get fm op)) :: rest) | None => JDict d' end
+  | _ => JDict d'
+  end.
+Proof. reflexivity. Qed.
+
+Lemma ren_dict_nofake d : as_normal (map (fun kv => (fst kv, ren (snd kv))) d) = None ->
+  ren (JDict d) = JDict (map (fun kv => (fst kv, ren (snd kv))) d).
+Proof.
+  intros H. rewrite ren_dict. cbv zeta. rewrite H.
+  destruct (map (fun kv => (fst kv, ren (snd kv))) d) as [|[k v] t]; auto.
+  destruct v; auto; repeat (destruct k as [|[[|] [|] [|] [|] [|] [|] [|] [|]] k]; auto).
+Qed.
+
+Lemma filter_map_Q {A} (f g : A -> option res) l :
+  Forall (fun x => Q (f x) (g x)) l ->
+  map fst (filter_map f l) = map (fun r => ren (fst r)) (filter_map g l).
+Proof.
+  induction 1 as [|x t Hx Ht IH]; simpl; auto.
+  unfold Q in Hx. destruct (f x), (g x); try contradiction; simpl; congruence.
+Qed.
+
+Lemma filter_map_kv_Q {A} (f g : A -> option res) (l : list (string * A)) :
+  Forall (fun kv => Q (f (snd kv)) (g (snd kv))) l ->
+  vals (filter_map (kv_opt f) l) = map (fun kv => (fst kv, ren (snd kv))) (vals (filter_map (kv_opt g) l)).
+Proof.
+  induction 1 as [|[k x] t Hx Ht IH]; [reflexivity|].
+  rewrite !filter_map_kv_cons. unfold Q in Hx. simpl in Hx.
+  destruct (f x), (g x); try contradiction; [|exact IH].
+  unfold vals in *. cbn [map fst snd]. rewrite IH, Hx. reflexivity.
+Qed.
+
+Lemma pack_s_Q a b :
+  map fst a = map (fun r => ren (fst r)) b -> Q (pack_s a) (pack_s b).
+Proof.
+  intros H. destruct a as [|x [|y t]], b as [|x' [|y' t']]; simpl in *; try discriminate; auto.
+  - injection H as ->. reflexivity.
+  - unfold pack_l. cbn [fst map]. injection H as -> -> Ht. rewrite ren_list. cbn [map]. rewrite map_map. rewrite Ht. reflexivity.
+Qed.
+
+Lemma args_vals_ren vf pf v0 p0 :
+  vf = ren v0 ->
+  args_vals (Some (vf, pf)) = map (fun kv => (fst kv, ren (snd kv))) (args_vals (Some (v0, p0))).
+Proof.
+  intros ->. destruct v0; try reflexivity.
+  - destruct l; reflexivity.
+  - rewrite ren_dict. cbv zeta.
+    destruct (map (fun kv => (fst kv, ren (snd kv))) d) as [|[k v] t] eqn:E.
+    + cbn [args_vals map fst snd]. rewrite ren_list. cbn [map]. rewrite ren_dict. cbv zeta. rewrite E. reflexivity.
+    + assert (H : exists d', (match k with
+             | "op" => match v with JStr op => match as_normal ((k, v) :: t) with Some _ => JDict (("op", JStr (fmap_get fm op)) :: t) | None => JDict ((k, v) :: t) end | _ => JDict ((k, v) :: t) end
+             | _ => JDict ((k, v) :: t) end) = JDict d').
+      { repeat (destruct k as [|[[|] [|] [|] [|] [|] [|] [|] [|]] k]; try (eexists; reflexivity)).
+        destruct v; try (eexists; reflexivity). destruct (as_normal _); eexists; reflexivity. }
+      destruct H as [d' Hd']. 
+      cbn [args_vals map fst snd]. rewrite ren_list. cbn [map]. rewrite ren_dict. cbv zeta. rewrite E.
+      cbv beta iota. 
+      repeat (destruct k as [|[[|] [|] [|] [|] [|] [|] [|] [|]] k]; try reflexivity).
+      destruct v; try reflexivity. destruct (as_normal _); reflexivity.
+Qed.
+
+Lemma call_Q op arF ar0 outF out0 :
+  Q arF ar0 ->
+  vals outF = map (fun kv => (fst kv, ren (snd kv))) (vals out0) ->
+  as_normal (vals outF) = None ->
+  Q (call_res MNormal (fmap_get fm op) arF (pack_d outF)) (call_res MNormal op ar0 (pack_d out0)).
+Proof.
+  intros HQ Ekw Hnf.
+  pose proof (call_normal_val (fmap_get fm op) arF outF) as EF. pose proof (call_normal_val op ar0 out0) as E0.
+  destruct (call_res MNormal (fmap_get fm op) arF (pack_d outF)) as [rf|]; try discriminate.
+  destruct (call_res MNormal op ar0 (pack_d out0)) as [r0|]; try discriminate.
+  cbn [option_map] in EF, E0. injection EF as EF. injection E0 as E0. cbn [Q]. rewrite EF, E0. clear EF E0 rf r0.
+  assert (Hkw : JDict (vals outF) = ren (JDict (vals out0))).
+  { rewrite ren_dict_nofake; rewrite <- Ekw; auto. }
+  assert (Ha : args_vals arF = map (fun kv => (fst kv, ren (snd kv))) (args_vals ar0)).
+  { unfold Q in HQ. destruct arF as [[vf pf]|], ar0 as [[v0 p0]|]; try contradiction; [|reflexivity].
+    apply args_vals_ren. exact HQ. }
+  rewrite ren_dict. cbv zeta. cbn [map fst snd]. change (ren (JStr op)) with (JStr op).
+  rewrite map_app, <- Ha.
+  assert (Hk : match vals outF with [] => [] | d => [("kwargs", JDict d)] end =
+               map (fun kv => (fst kv, ren (snd kv))) (match vals out0 with [] => [] | d => [("kwargs", JDict d)] end)).
+  { destruct (vals out0) as [|kv0 d0] eqn:E0.
+    - rewrite Ekw. reflexivity.
+    - rewrite Ekw at 1. cbn [map fst snd]. rewrite <- Hkw. rewrite Ekw. reflexivity. }
+  rewrite <- Hk.
+  (* the renamed node is recognised as a normal-form node *)
+  assert (Hn : exists x, as_normal (("op", JStr op) :: args_vals arF ++ match vals outF with [] => [] | d => [("kwargs", JDict d)] end) = Some x).
+  { destruct arF as [[vf pf]|]; cbn [args_vals app].
+    - destruct vf; try (destruct (vals outF); eexists; reflexivity).
+      destruct l; destruct (vals outF); eexists; reflexivity.
+    - destruct (vals outF); eexists; reflexivity. }
+  destruct Hn as [x Hx]. rewrite Hx. reflexivity.
+Qed.
+
+Theorem fmap_is_rename : forall r, nofakeb_n r = true -> Q (sF r) (s0 r).
+Proof.
+  induction r as [| |s|z|b|f|op a k IHa IHk|kvs IH|xs IH|t named flat IHn IHf] using raw_ind';
+    intros Hnf; simpl in Hnf; try (simpl; auto; fail).
+  - apply andb_true_iff in Hnf as [Hnf Hk3]. apply andb_true_iff in Hnf as [Ha Hk2].
+    assert (HkQ : Forall (fun kv => Q (sF (snd kv)) (s0 (snd kv))) k).
+    { rewrite forallb_forall in Hk2. apply Forall_forall. intros kv Hin. rewrite Forall_forall in IHk. auto. }
+    pose proof (filter_map_kv_Q sF s0 k HkQ) as Ekw.
+    specialize (IHa Ha). cbn [scrub_s fmap_get].
+    destruct (as_normal (vals (filter_map (kv_opt sF) k))) eqn:Eds; try discriminate.
+    apply call_Q; auto.
+  - apply andb_true_iff in Hnf as [H1 H2].
+    assert (HQ : Forall (fun kv => Q (sF (snd kv)) (s0 (snd kv))) kvs).
+    { rewrite forallb_forall in H1. apply Forall_forall. intros kv Hin. rewrite Forall_forall in IH. auto. }
+    cbn [scrub_s Q]. rewrite !fst_pack_d.
+    destruct (as_normal (vals (filter_map (kv_opt sF) kvs))) eqn:E; try discriminate.
+    pose proof (filter_map_kv_Q sF s0 kvs HQ) as Ekw.
+    rewrite ren_dict_nofake; rewrite <- Ekw; auto.
+  - cbn [scrub_s]. apply pack_s_Q. apply filter_map_Q.
+    rewrite forallb_forall in Hnf. apply Forall_forall. intros x Hin. rewrite Forall_forall in IH. auto.
+  - apply andb_true_iff in Hnf as [Hnf H3]. apply andb_true_iff in Hnf as [H1 H2].
+    cbn [scrub_s]. destruct (negb t); [exact Logic.I|].
+    assert (HQn : Forall (fun kv => Q (pack_s (filter_map sF (snd kv))) (pack_s (filter_map s0 (snd kv)))) named).
+    { rewrite forallb_forall in H1. apply Forall_forall. intros kv Hin. rewrite Forall_forall in IHn.
+      apply pack_s_Q. apply filter_map_Q. specialize (H1 kv Hin). specialize (IHn kv Hin).
+      rewrite forallb_forall in H1. apply Forall_forall. intros x Hx. rewrite Forall_forall in IHn. auto. }
+    pose proof (filter_map_kv_Q (fun vs => pack_s (filter_map sF vs)) (fun vs => pack_s (filter_map s0 vs)) named HQn) as En.
+    destruct (filter_map (kv_opt (fun vs => pack_s (filter_map sF vs))) named) as [|kvn outn] eqn:EoN;
+    destruct (filter_map (kv_opt (fun vs => pack_s (filter_map s0 vs))) named) as [|kvs' outs] eqn:EoS;
+      try (cbn in En; discriminate).
+    + apply pack_s_Q. apply filter_map_Q.
+      rewrite forallb_forall in H2. apply Forall_forall. intros x Hin. rewrite Forall_forall in IHf. auto.
+    + cbn [Q]. rewrite !fst_pack_d.
+      destruct (as_normal (vals (kvn :: outn))) eqn:E; try discriminate.
+      rewrite ren_dict_nofake; rewrite <- En; auto.
+Qed.
+End Fmap.
